@@ -220,6 +220,23 @@ static void hashSweeps(Ctx& c, const char* en, const char* bn)
 		ctorSweep(c, "HashMap(copy) " + N, [n] { Map s; for (unsigned i = 0; i < n; ++i) s.Insert(E(i * 3), E(i)); Map d(s); });
 	}
 	ctorSweep(c, std::string("HashSet(init-list) ") + bn + " " + en, [] { Set d{ E(1), E(2), E(3), E(4), E(5), E(6), E(7) }; });
+	// insertion into a bucket that has a spare slot in its existing item storage: a table that was filled and then thinned
+	// out by removals (the chained buckets keep their item block, so the next item is created in place; open-addressing buckets
+	// have the hole in the middle of their short-hash bytes). Every new key is swept over every failing copy / allocation /
+	// functor call; the keys are chosen so that they land in many different buckets.
+	for (unsigned n : { 6u, 14u, 40u }) for (unsigned hole : { 2u, 3u }) {
+		auto mkS = [n, hole](Set& s) { for (unsigned i = 0; i < n; ++i) s.Insert(E(i)); for (unsigned i = 0; i < n; ++i) if (i % hole == 0) s.Remove(E(i)); };
+		auto mkM = [n, hole](Map& m) { for (unsigned i = 0; i < n; ++i) m.Insert(E(i), E(i + 900)); for (unsigned i = 0; i < n; ++i) if (i % hole == 0) m.Remove(E(i)); };
+		for (unsigned k = 0; k < 12; ++k) {
+			unsigned key = 2000 + k * 5;
+			std::string N = fmt("%s %s n=%u thinned by 1/%u, key %u", bn, en, n, hole, key);
+			sweep<Set>(c, "HashSet.Insert(after removals) " + N, mkS, [key](Set& s) { E x(key); s.Insert(x); }, snapSet<Set>, true);
+			sweep<Map>(c, "HashMap.Insert(after removals) " + N, mkM, [key](Map& m) { E kx(key), v(7); m.Insert(kx, v); }, snapMap<Map>, true);
+		}
+		// re-insertion of a removed key lands in the very bucket that has the hole
+		sweep<Set>(c, fmt("HashSet.Insert(removed key again) %s %s n=%u thinned by 1/%u", bn, en, n, hole), mkS, [](Set& s) { E x(0); s.Insert(x); }, snapSet<Set>, true);
+		sweep<Map>(c, fmt("HashMap.operator[](removed key again) %s %s n=%u thinned by 1/%u", bn, en, n, hole), mkM, [](Map& m) { E kx(0); m[kx] = E(3); }, snapMap<Map>, true);
+	}
 }
 
 template<typename E>
